@@ -381,6 +381,9 @@ def run(ctx):
     run_probes(ctx, p, cfg)
     n = ctx.n(2400, 60000)
     base = run_tree_stream(ctx, p, n, cfg)
+    # translator tie (T) for the post-processing stage behind the grammar (notes/C09C10-post.md)
+    import parsepost_tie
+    parsepost_tie.run_a64(ctx, p, base, PROBES)
     run_malformed(ctx, p, base, ctx.n(800, 12000), cfg)
     run_files(ctx, p, base, ctx.n(60, 400), cfg)
     if ctx.broken() and not [v for v in ctx.violations]:
